@@ -235,6 +235,13 @@ def gen_case(rng, for_c10=False):
             e['type_def'] = 'fixed_gain'
             e.pop('advanced_config_from_json')
             e['nf0'] = 5.5
+    if rng.random() < 0.4:
+        # a hybrid-like Raman model eligible for auto-design: wide gain range, quiet, moderate p_max
+        gmin_ = rng.choice([10, 12, 15, 18, 22, 25])
+        lib.insert(rng.randint(0, len(lib)),
+                   {'type_variety': 'hyb', 'type_def': 'fixed_gain', 'raman': True, 'gain_min': gmin_,
+                    'gain_flatmax': gmin_ + rng.choice([6, 8, 11]), 'p_max': rng.choice([14, 16, 18, 21, 23]),
+                    'nf0': rng.choice([-1, 0.5, 2, 4]), 'out_voa_auto': rng.random() < 0.3, 'allowed_for_design': True})
     singles = [e for e in lib if e['type_def'] != 'multi_band']
     full = [e for e in singles if 'f_min' not in e or (e['f_min'] <= 191.3e12 and e['f_max'] >= 196.1e12)]
     for e in rng.sample(full, min(len(full), 2)):
@@ -244,6 +251,11 @@ def gen_case(rng, for_c10=False):
     imposable = [e['type_variety'] for e in full]
     span = gen_span(rng)
     si = gen_si(rng)
+    if rng.random() < 0.25:
+        # high design load: reference power x channel count above the p_max of part of the library
+        si['power_dbm'] = rng.choice([3, 4, 5, 6])
+        if 'tx_power_dbm' in si:
+            si['tx_power_dbm'] = si['power_dbm']
     roadm_lib = gen_roadm_lib(rng, libnames, imposable)
     els, cx = [], []
     nroadm = rng.choice([0, 2, 2, 2, 3, 3, 4])
@@ -293,6 +305,8 @@ def gen_case(rng, for_c10=False):
                 continue
             first = l[0]
             deg = first['uid'] if first['type'] not in ('Fiber', 'RamanFiber') else f"Edfa_booster_roadm {s}_to_{first['uid']}"
+            if first['type'] in ('Fiber', 'RamanFiber') and first['params']['length'] > 100:
+                first['params']['length'] = round(rng.uniform(40, 100), 1)      # not split: the booster keeps this name
             lo = rng.choice([191.3e12, 191.4e12, 192.0e12])
             rp.setdefault('per_degree_design_bands', {})[deg] = [
                 {'f_min': lo, 'f_max': lo + rng.choice([1.0e12, 2.4e12, 3.6e12, 4.0e12]),
@@ -1069,6 +1083,9 @@ def run(ctx):
         case = strip(c)
         models = [parse_oms(x) for x in line.split('~')] if omses else []
         span = c['span']
+        if built['status'] == 'E:NetworkTopologyError':
+            ctx.count('design_rejected_topology')          # topology validation is not part of the power design (C08)
+            continue
         if built['status'] != 'ok':
             # the design raised: some OMS of the model must raise the same error (the only modelled one)
             errs = [m['err'] for m in models if m['err']]
